@@ -159,7 +159,11 @@ func (g *G) nodeOfKind(k spec.Kind, depth int) *spec.Node {
 func (g *G) fixedTest(name string) spec.Test {
 	fail := g.pct(g.O.FailingTests)
 	t := spec.Test{Op: spec.TCustom, PredName: fmt.Sprintf("%s:const(%v)", name, !fail), Pred: func(any) bool { return !fail }, ViaTest: g.pct(30)}
+	t.Patch = t.ViaTest && g.pct(50)
 	t.Opts = g.testOpts(false)
+	if t.Patch && t.Opts.Message != nil && t.Opts.MsgFunc != nil {
+		t.Opts.MsgFunc = nil
+	}
 	if t.Opts.Code == nil && g.pct(60) {
 		c := "custom_" + name
 		t.Opts.Code = &c
@@ -441,6 +445,14 @@ func (g *G) stringNode(n *spec.Node) {
 				add(spec.Test{Op: spec.TEmail, Not: true})
 			}
 		}
+	}
+	// occasionally a negated test with an empty argument (always fails: every string contains / starts / ends with ""),
+	// placed before the other tests so that a negation leaking onto the next builder call is visible
+	if fam > 2 && g.pct(5) {
+		op := []spec.TestOp{spec.TContains, spec.THasPrefix, spec.THasSuffix}[g.R.Intn(3)]
+		t := spec.Test{Op: op, Not: true, Arg: ""}
+		t.Opts = g.testOpts(false)
+		n.Tests = append([]spec.Test{t}, n.Tests...)
 	}
 	g.maybeCustomOnPrimitive(n)
 }
